@@ -570,6 +570,79 @@ fn concurrent_check(x: &crate::sched::Execution) -> Vec<(String, String)> {
     bad
 }
 
+/// For each marking operation (touch, put onto an existing key, get read / unread) on each front-end and
+/// atime policy: every call of the operation fails once in turn; if the operation still reports
+/// success, the entry must be marked and its mtime untouched.
+fn fault_section(shard: Shard, rep: &mut Report) {
+    use crate::props::c18::{plausible, FailAt};
+    use crate::shim::Controller;
+    use std::sync::atomic::AtomicU64;
+    use std::sync::{Arc, Mutex};
+    let ms = 1_000_000i64;
+    let mut no = 0u64;
+    for front in 0..3u8 {
+        for policy in 0..3usize {
+            let cfg = Config { front, policy, gran_ns: 1, step_ns: ms, nkeys: 2 };
+            for marker in [Sym::Touch(0), Sym::Put(0), Sym::GetRead(0), Sym::GetDrop(0)] {
+                // fault-free run to learn the marker's calls
+                let mut scratch = Report::new("scratch");
+                let mut live = open_live(&cfg);
+                step(&mut live, &cfg, &Sym::Set(0, 0), &mut scratch, false);
+                step(&mut live, &cfg, &Sym::Set(1, 0), &mut scratch, false);
+                let t0 = shim::trace_len();
+                step(&mut live, &cfg, &marker, &mut scratch, false);
+                let trace = shim::trace_since(t0);
+                drop(live);
+                for (k, ev) in trace.iter().enumerate() {
+                    for a in plausible(ev, false).into_iter().take(2) {
+                        no += 1;
+                        if !shard.mine(no) {
+                            continue;
+                        }
+                        let mut live = open_live(&cfg);
+                        step(&mut live, &cfg, &Sym::Set(0, 0), &mut scratch, false);
+                        step(&mut live, &cfg, &Sym::Set(1, 0), &mut scratch, false);
+                        let before = dir_state(&live, cfg.gran_ns);
+                        let ctl = Arc::new(FailAt { faults: vec![(k as u64, a)], kinds: vec![Some(ev.kind)], n: AtomicU64::new(0), hit: Mutex::new(vec![]) });
+                        shim::set_controller(Some(ctl.clone() as Arc<dyn Controller>));
+                        let bad = step(&mut live, &cfg, &marker, &mut scratch, false);
+                        shim::set_controller(None);
+                        rep.evaluations += 1;
+                        rep.states += 1;
+                        rep.traces += 1;
+                        rep.count("marking_fault_cases", 1);
+                        if ctl.hit.lock().unwrap().is_empty() || bad.iter().any(|b| b.0 == "error") {
+                            continue; // the fault did not apply, or the operation reported the failure
+                        }
+                        let after = dir_state(&live, cfg.gran_ns);
+                        let name = cfg.keys()[0].name.clone();
+                        if let (Some(b), Some(s)) = (before.get(&name), after.get(&name)) {
+                            // (a lookup marks on a best-effort basis: the library deliberately ignores a failure of
+                            // its re-touch, and the lookup's effect - the handle - is achieved; touch and put onto
+                            // an existing key have no other effect than the mark)
+                            let marking_is_the_effect = matches!(marker, Sym::Touch(_) | Sym::Put(_));
+                            if s.1 < s.0 && marking_is_the_effect {
+                                rep.violation(
+                                    "queue:success-without-mark",
+                                    format!("{}: {:?} with call {} ({}) failing {:?} reported success but left the entry unmarked (atime < mtime)", cfg.label(), marker, k, ev.func, a),
+                                    json!({"fault_section": true}),
+                                );
+                            }
+                            if s.0 != b.0 {
+                                rep.violation(
+                                    "queue:marking-reordered",
+                                    format!("{}: {:?} with call {} ({}) failing {:?} changed the entry's modification time", cfg.label(), marker, k, ev.func, a),
+                                    json!({"fault_section": true}),
+                                );
+                            }
+                        }
+                    }
+                }
+            }
+        }
+    }
+}
+
 pub fn run(tier: Tier, shard: Shard, rep: &mut Report) {
     rep.rule = "breadth-first search over operation sequences on 2 (3) keys of one directory: {set k A|B, put k C, get k + read to the end, \
         get k dropped unread, touch k, maintenance with capacity 0/1/2} x front-end {plain, sharded, stacked} x emulated access-time \
@@ -580,7 +653,8 @@ pub fn run(tier: Tier, shard: Shard, rep: &mut Report) {
         every marking step the real prune is run on a clone of the directory with capacity n-1: the entry must survive when an unread \
         entry exists, and be re-queued when it was the oldest. Quick: a pairwise-covering dozen of the 54 configurations to depth 4; \
         thorough: all of them to depth 8 or fixpoint. Plus: touch / put-on-existing / get racing with a set of the same key (all schedules with \
-        <= 2 preemptions): the entry that ends up holding the set's value never carries the replaced entry's modification time. \
+        <= 2 preemptions): the entry that ends up holding the set's value never carries the replaced entry's modification time. And: every call of a marking operation failing once in turn (3 front-ends x 3 atime policies): an operation \
+        that still reports success has set the mark and left the mtime alone. \
         Non-trivial = states with >= 2 entries and a read mark."
         .into();
     rep.assumptions = vec![
@@ -599,9 +673,14 @@ pub fn run(tier: Tier, shard: Shard, rep: &mut Report) {
     let progs = concurrent_programs();
     let mut chk = |_pi: usize, x: &crate::sched::Execution| concurrent_check(x);
     crate::props::e1::explore_all("C09", &progs, shard, rep, &|_| crate::sched::RunOpts::default(), &mut chk, 500_000);
+    fault_section(shard, rep);
 }
 
 pub fn replay(case: &Value, rep: &mut Report) {
+    if case.get("fault_section").is_some() {
+        fault_section(Shard { index: 0, count: 1 }, rep);
+        return;
+    }
     if case.get("program").is_some() {
         let progs: Vec<crate::sched::Program> = concurrent_programs().into_iter().map(|p| p.0).collect();
         let mut chk = |x: &crate::sched::Execution| concurrent_check(x);
